@@ -58,11 +58,20 @@ def run(ctx):
             wcases.append({"id": len(wcases) + 1, "input": {"family": "text", "len": pre + 3 * B + 5, "seed": i}, "opts": o, "calls": calls, "hist": -1,
                            "reconf": True})
     wrecs, faults = fl.shard_run(b, "frame-write", wcases, d, "w", extra=("--watchdog", "30s"))
-    if faults:
-        raise vlib.MachineryFault("frame-write failed: %s" % faults[0]["stderr"][-800:])
-    missing = [c["id"] for c in wcases if c["id"] not in wrecs]
-    if missing:
+    # a case without a record killed its process (a panic in a library goroutine cannot be recovered by the caller)
+    missing = [c for c in wcases if c["id"] not in wrecs]
+    for c in missing[:6]:
+        rr, ff = fl.shard_run(b, "frame-write", [c], d, "death", nshards=1, extra=("--watchdog", "30s"))
+        if c["id"] not in rr:
+            ops = "-".join(x["op"] for x in c["calls"])
+            ctx.violation("C17:writer:process-died:conc=%s:%s" % ("1" if c["opts"]["conc"] == 1 else ">1", ops),
+                          "this call sequence kills the process: %s" % (ff[0]["stderr"][-300:] if ff else ""),
+                          {"kind": "c17-writer", "case": c, "stderr": ff[0]["stderr"][-1500:] if ff else ""})
+        else:
+            wrecs[c["id"]] = rr[c["id"]]
+    if len(missing) > 6 and not ctx.violations:
         raise vlib.MachineryFault("%d writer cases produced no record" % len(missing))
+    wcases = [c for c in wcases if c["id"] in wrecs]
     ctx.evaluations += len(wrecs)
     ctx.distinct += len(wcases)
     by_w = {c["id"]: c for c in wcases}
